@@ -60,6 +60,10 @@ def _special_pairs(ctx):
     tgt = kc.mk_area({"proj": "stere", "lat_0": 90, "lat_ts": 60, "lon_0": 0, "ellps": "WGS84"}, 6, 6, (-4.0e5, -4.0e5, 4.0e5, 4.0e5))
     lon, lat = kc.swath(r, 9, 9, 30.0, 88.0, 8.0)
     out.append((SwathDefinition(lon, lat), tgt, 80000.0, "special over_pole: swath[9x9] -> stere 6x6 over the pole, r=80000"))
+    # area whose CRS has a non-Greenwich prime meridian (what antimeridian_mode="modify_crs" produces), across the dateline
+    tgt = kc.mk_area({"proj": "longlat", "pm": 180, "datum": "WGS84"}, 8, 5, (-4.0, 10.0, 4.0, 15.0))
+    lon, lat = kc.swath(r, 9, 9, 179.5, 12.5, 9.0)
+    out.append((SwathDefinition(lon, lat), tgt, 60000.0, "special pm180: swath[9x9] at the dateline -> longlat +pm=180 5x8, r=60000"))
     # grid -> swath (output reduction)
     src = kc.mk_area({"proj": "laea", "lat_0": 70, "lon_0": 20, "ellps": "WGS84"}, 8, 7, (-4.0e5, -3.0e5, 4.0e5, 4.0e5))
     lon, lat = kc.swath(r, 8, 8, 20.0, 70.0, 12.0)
@@ -140,6 +144,8 @@ def check(ctx, src, tgt, radius, desc):
         combos = [(rd, sg, 1) for rd in (False, True) for sg in segs if not (rd is False and sg == 1)]
         if tname == "nn" or not ctx.quick:
             combos += [(ctx.rng.choice([False, True]), ctx.rng.choice(segs), 2)]
+            if desc.startswith("special pm180"):
+                combos += [(False, 1, 2)]
             if not ctx.quick:
                 combos += [(True, 1, 3)]
         for rd, sg, npr in combos:
